@@ -33,6 +33,21 @@ CHECKS = {
             "TLC checks that the bulk resolved view has one entry per token and all ten fields equal the "
             "accessor results.",
             "TLA+ trace monitoring (TraceMon/Props)"),
+    "C06": ("model_checking", "8 C06, 7.2",
+            "TLC evaluates the per-type shape table (spec/Shapes.tla: text shape, payload kind, channel, hidden-channel "
+            "rules) on every token of every result; keyword spellings follow the naming rule in spec/Tokens.tla, not the "
+            "crate's generated maps.",
+            "TLA+ trace monitoring (TraceMon/Shapes)"),
+    "C07": ("model_checking", "8 C07, 7.5",
+            "TLC recomputes the unquoted value of every literal / string-expression text / %str text from the token "
+            "text (spec/Unquote.tla), compares it with the payload, and checks that payload ranges partition the literal "
+            "buffer; the %str context of a MacroString comes from the recorded events.",
+            "TLA+ trace monitoring (TraceMon/Unquote)"),
+    "C08": ("model_checking", "8 C08, 7.4",
+            "TLC applies the numeric grammar of spec/Num.tla at every numeric token (extent, type, errors), recomputes "
+            "integer values as decimal digit sequences, and checks floats for correct rounding by big-number comparison "
+            "with the midpoints to the neighbouring doubles.",
+            "TLA+ trace monitoring (TraceMon/Num), digit-sequence arithmetic"),
     "C09": ("model_checking", "8 C09",
             "TLC checks error bounds, last-token anchoring, order and the two-way pairing of 'missing expected' "
             "errors with zero-width recovery tokens.",
